@@ -16,7 +16,7 @@ use std::path::{Path, PathBuf};
 use std::sync::atomic::{AtomicUsize, Ordering};
 use std::time::Duration;
 
-pub const RULE: &str = "(failures, in-process) puller in {pull_to_file, pull_to_beve_file, pull_to_beve_zst_file, pull_to_file_trailer_verified, pull_to_file_async, pull_to_file_verified_async, pull_to_file_trailer_verified_async, pull_value, pull_to_vec(+async)} x failure in {none, producer failure after byte n (chunk boundary +-1), connection cut after the k-th response for every k (harness-owned scripted SVS server), rejecting verifier, trailer longer than the stream, output incompatible with the stream's compression/format} x destination {absent, pre-existing sentinel} x compression {none, zstd}; oracle: failure => Err, destination byte-identical to its prior state, no .svspart sibling; success => destination == complete logical content (trailer stripped), no temp file; value pulls under truncation => Err; (crash points) the sequence of commit-path probe hits (per fetched chunk, before flush, before sync, before rename, after rename) is recorded, then for each hit index a child process runs the same pull and _exit()s there: before the rename point the destination is unchanged, after it the destination holds the complete content; (kill) a child pulling a paced multi-chunk stream is SIGKILLed at a generated time: destination unchanged or complete; non-trivial = failure strictly inside the stream, or a pre-existing destination, or a crash between the first chunk and the rename; distinct = case hash";
+pub const RULE: &str = "(failures, in-process) puller in {pull_to_file, pull_to_beve_file, pull_to_beve_zst_file, pull_to_file_trailer_verified, pull_to_file_async, pull_to_file_verified_async, pull_to_file_trailer_verified_async, pull_value, pull_to_vec(+async)} x failure in {none, producer failure after byte n (chunk boundary +-1), connection cut after the k-th response for every k (harness-owned scripted SVS server), rejecting verifier, trailer longer than the stream, output incompatible with the stream's compression/format} x destination {absent, pre-existing sentinel} x compression {none, zstd}; oracle: failure => Err, destination byte-identical to its prior state, no .svspart sibling; success => destination == complete logical content (trailer stripped), no temp file; value pulls under truncation => Err; (crash points) the sequence of commit-path probe hits (per fetched chunk, before flush, before sync, before rename, after rename) is recorded, then for each hit index a child process runs the same pull and _exit()s there: before the rename point the destination is unchanged, after it the destination holds the complete content; (kill) a child pulling a paced multi-chunk stream is SIGKILLed at a generated time: destination unchanged or complete; after every interrupted pull (crash point or SIGKILL) a second, successful pull of different, shorter content to the same destination must publish exactly that content; non-trivial = failure strictly inside the stream, or a pre-existing destination, or a crash between the first chunk and the rename; distinct = case hash";
 
 #[derive(Debug, Clone, Copy, Serialize, Deserialize, Hash, PartialEq, Eq)]
 pub enum Puller {
